@@ -1,5 +1,8 @@
 import Revm.Proofs.InterpTop
 import Revm.Proofs.InterpTable
+import Revm.Proofs.InterpEofTop
+import Revm.Proofs.InterpEofC26
+import Revm.Proofs.InterpEofValid
 /-! # C25 — memory-safe, terminating interpretation
 
 "For any legacy bytecode, calldata, gas limit and hardfork, and for any EOF container that passes validation,
@@ -20,8 +23,9 @@ environments that passed `validate_block_env` (`prevrandao` present from the Mer
 `host_env.rs`), all hosts and all child-frame results (`OracleOk`: answers are Rust values, a child returns at most the
 gas it was given, and never `FatalExternalError`, which the EVM loop intercepts before `insert_*_outcome`), all fuel.
 
-EOF: only the legacy behaviour of the EOF-only opcodes is covered (they stop the frame); execution of validated EOF
-containers is not modelled here — see `FullStatementEof` at the end. -/
+EOF: every EOF instruction is modelled (`IState.initEof`); the statements are proved for every container that
+satisfies the explicit well-formedness predicate `WfCtx` (decidable version `wfCtxB`, section "EOF" below), and
+validation implies it (`validation_gives_wf`), so `FullStatementEof` at the end is proved (`fullStatementEof`). -/
 namespace Revm.Props.C25
 open Revm Revm.Model Revm.Model.Interp Revm.Proofs.Interp
 
@@ -43,7 +47,7 @@ variable (env : Env) (mem : Memory.SharedMemory)
 abbrev frame : IState := IState.init code input gasLimit isStatic spec target caller callValue env mem
 
 theorem frame_inv (ha : Admissible code input gasLimit spec env mem) :
-    Inv (frame code input gasLimit isStatic spec target caller callValue env mem)
+    InvC (Jump.pad code) code.length (frame code input gasLimit isStatic spec target caller callValue env mem)
     ∧ Proofs.Interp.measure (frame code input gasLimit isStatic spec target caller callValue env mem) = gasLimit :=
   init_inv code input gasLimit isStatic spec target caller callValue env mem
     ha.bytes ha.codeLen ha.inputLen ha.gasLt ha.envOk ha.memFresh
@@ -58,7 +62,7 @@ include ho
 /-- **never panics, never outside a buffer**: for every fuel, the loop never returns a fault -/
 theorem no_panic_legacy (ha : Admissible code input gasLimit spec env mem) (fuel : Nat) (f : Fault) :
     (run o fuel (frame code input gasLimit isStatic spec target caller callValue env mem) h0).1 ≠ .fault f := by
-  have hs := run_safe o ho fuel _ h0 (frame_inv code input gasLimit isStatic spec target caller callValue env mem ha).1
+  have hs := run_safe _ _ o ho fuel _ h0 (frame_inv code input gasLimit isStatic spec target caller callValue env mem ha).1
   intro e; rw [e] at hs; exact hs
 
 /-- **terminates**: `gas_limit + 1` instructions of fuel always suffice (every continuing instruction and every
@@ -66,7 +70,7 @@ re-entry of a child result lowers `gas remaining + memory cost paid` by at least
 theorem run_terminates (ha : Admissible code input gasLimit spec env mem) (fuel : Nat) (hf : gasLimit < fuel) :
     (run o fuel (frame code input gasLimit isStatic spec target caller callValue env mem) h0).1 ≠ .outOfFuel := by
   obtain ⟨hi, hm⟩ := frame_inv code input gasLimit isStatic spec target caller callValue env mem ha
-  have hs := run_safe o ho fuel _ h0 hi
+  have hs := run_safe _ _ o ho fuel _ h0 hi
   intro e; rw [e] at hs
   have : fuel ≤ Proofs.Interp.measure _ := hs
   omega
@@ -77,7 +81,7 @@ theorem ends_within_gas (ha : Admissible code input gasLimit spec env mem) (fuel
     ∃ r out s', (run o fuel (frame code input gasLimit isStatic spec target caller callValue env mem) h0).1
         = .done r out s' ∧ s'.gas.remaining ≤ gasLimit := by
   obtain ⟨hi, hm⟩ := frame_inv code input gasLimit isStatic spec target caller callValue env mem ha
-  have hs := run_safe o ho fuel _ h0 hi
+  have hs := run_safe _ _ o ho fuel _ h0 hi
   cases hr : (run o fuel (frame code input gasLimit isStatic spec target caller callValue env mem) h0).1 with
   | done r out s' =>
     rw [hr] at hs
@@ -99,16 +103,16 @@ abbrev Reachable (s : IState) (h : η) : Prop :=
 theorem pc_in_bounds (ha : Admissible code input gasLimit spec env mem) {s : IState} {h : η}
     (hr : Reachable o h0 code input gasLimit isStatic spec target caller callValue env mem s h) :
     s.pc < s.code.length ∧ s.code = Jump.pad code :=
-  ⟨(reach_inv o ho (frame_inv code input gasLimit isStatic spec target caller callValue env mem ha).1 hr).1.pc,
-   (reach_inv o ho (frame_inv code input gasLimit isStatic spec target caller callValue env mem ha).1 hr).2.2.1⟩
+  ⟨(reach_inv _ _ o ho (frame_inv code input gasLimit isStatic spec target caller callValue env mem ha).1 hr).1.1.pc,
+   (reach_inv _ _ o ho (frame_inv code input gasLimit isStatic spec target caller callValue env mem ha).1 hr).1.2.1⟩
 
 /-- falling off the end of the code executes the STOP of the 33-byte zero padding -/
 theorem falls_off_end_stops (ha : Admissible code input gasLimit spec env mem) {s : IState} {h : η}
     (hr : Reachable o h0 code input gasLimit isStatic spec target caller callValue env mem s h)
     (hend : code.length ≤ s.pc) :
     step s = .halt .Stop [] { s with pc := s.pc + 1 } := by
-  have hri := reach_inv o ho (frame_inv code input gasLimit isStatic spec target caller callValue env mem ha).1 hr
-  exact step_in_padding hri.1 (by rw [hri.2.2.2]; exact hend)
+  have hri := reach_inv _ _ o ho (frame_inv code input gasLimit isStatic spec target caller callValue env mem ha).1 hr
+  exact step_in_padding hri.1.1 (by rw [hri.1.2.2]; exact hend)
 
 /-- the instruction in a reachable state, whatever the host answers, is not the fault `f` -/
 def StepFaults (s : IState) (f : Fault) : Prop :=
@@ -117,8 +121,8 @@ def StepFaults (s : IState) (f : Fault) : Prop :=
 theorem step_never_faults (ha : Admissible code input gasLimit spec env mem) {s : IState} {h : η}
     (hr : Reachable o h0 code input gasLimit isStatic spec target caller callValue env mem s h) (f : Fault) :
     ¬ StepFaults s f := by
-  have hi := (reach_inv o ho (frame_inv code input gasLimit isStatic spec target caller callValue env mem ha).1 hr).1
-  have hg := step_good hi
+  have hi := (reach_inv _ _ o ho (frame_inv code input gasLimit isStatic spec target caller callValue env mem ha).1 hr).1
+  have hg := step_good _ _ s hi
   rintro (e | ⟨op, k, r, e, hr, ek⟩)
   · rw [e] at hg
     cases hg with
@@ -138,7 +142,7 @@ theorem stack_index_ok (ha : Admissible code input gasLimit spec env mem) {s : I
     (hr : Reachable o h0 code input gasLimit isStatic spec target caller callValue env mem s h) :
     ¬ StepFaults s .oobStack ∧ s.stack.length ≤ 1024 :=
   ⟨step_never_faults o ho h0 code input gasLimit isStatic spec target caller callValue env mem ha hr _,
-   (reach_inv o ho (frame_inv code input gasLimit isStatic spec target caller callValue env mem ha).1 hr).1.stack⟩
+   (reach_inv _ _ o ho (frame_inv code input gasLimit isStatic spec target caller callValue env mem ha).1 hr).1.1.stack⟩
 
 /-- **`memory_index_ok`**: every memory read / write happens inside the context, after a `resize_memory!` that
 covers it; and `resize_memory!` never reaches the `Vec` capacity panic -/
@@ -155,14 +159,14 @@ theorem gas_decreases (ha : Admissible code input gasLimit spec env mem) {s : IS
     {s' : IState} {h' : η} (hstep : resolve o (step s) h = (.next s', h')) :
     s'.gas.remaining + 1 ≤ s.gas.remaining :=
   step_next_gas o ho
-    (reach_inv o ho (frame_inv code input gasLimit isStatic spec target caller callValue env mem ha).1 hr).1 h h' hstep
+    (reach_inv _ _ o ho (frame_inv code input gasLimit isStatic spec target caller callValue env mem ha).1 hr).1.1 h h' hstep
 
 /-- the meter never shows more than the limit -/
 theorem gas_within_limit (ha : Admissible code input gasLimit spec env mem) {s : IState} {h : η}
     (hr : Reachable o h0 code input gasLimit isStatic spec target caller callValue env mem s h) :
     s.gas.remaining ≤ gasLimit := by
   obtain ⟨hi, hm⟩ := frame_inv code input gasLimit isStatic spec target caller callValue env mem ha
-  have h1 := (reach_inv o ho hi hr).2.1
+  have h1 := (reach_inv _ _ o ho hi hr).2
   have h2 : Proofs.Interp.measure s = s.gas.remaining + mcost s := rfl
   omega
 
@@ -178,7 +182,7 @@ def nullOracle : Oracle Unit where
 theorem nullOracle_ok : OracleOk nullOracle :=
   ⟨fun _ _ => by show ([] : List Nat).length ≤ _; simp,
    fun _ a => ⟨Nat.zero_le _, by show IResult.Stop ≠ IResult.FatalExternalError; decide,
-     by show ([] : List Nat).length ≤ _; simp⟩⟩
+     by show ([] : List Nat).length ≤ _; simp, fun _ _ h => by cases h⟩⟩
 
 /-- `PUSH1 1; PUSH1 2; ADD; PUSH32` cut off after one byte, Cancun, 100000 gas, default environment -/
 example : Admissible [0x60, 0x01, 0x60, 0x02, 0x01, 0x7f, 0xaa] [0xde, 0xad] 100000 17 {} Memory.new :=
@@ -219,33 +223,257 @@ theorem opcode_gate_matches_table (spec : Nat) (codes : List Nat) (h : (spec, co
 
 /-! ## EOF -/
 
-/-- in legacy code every EOF-only opcode stops the frame (`EOFOpcodeDisabledInLegacy`; RETURNCONTRACT:
-`ReturnContractInNotInitEOF`) — part of the legacy statement above; shown separately because it is all this file
-says about the EOF instruction set -/
-theorem eof_opcodes_stop_in_legacy_partial (s : IState) (h1 : s.isEof = false) (h2 : s.isEofInit = false) :
-    execInstr .eofOnly s = .halt .EOFOpcodeDisabledInLegacy [] s
+/-- in legacy code every EOF-only opcode stops the frame at its `require_eof!` (`EOFOpcodeDisabledInLegacy`;
+RETURNCONTRACT at `require_init_eof!`: `ReturnContractInNotInitEOF`) — part of the legacy statement above, shown
+separately for the instructions without a host question -/
+theorem eof_opcodes_stop_in_legacy (s : IState) (h1 : s.isEof = false) (h2 : s.isEofInit = false) :
+    (∀ i ∈ [Instr.rjump, .rjumpi, .rjumpv, .callf, .retf, .jumpf, .dupn, .swapn, .exchange, .dataload, .dataloadn,
+        .datasize, .datacopy, .returndataload], execInstr i s = .halt .EOFOpcodeDisabledInLegacy [] s)
     ∧ execInstr .returnContract s = .halt .ReturnContractInNotInitEOF [] s := by
+  have hg : ∀ (k : Unit → M Unit), Outcome.pure (Exec.toDone (M.bind requireEof k s))
+      = .halt .EOFOpcodeDisabledInLegacy [] s := by
+    intro k; unfold M.bind requireEof; rw [h1]; rfl
   constructor
-  · show Outcome.pure (Exec.toDone ((do requireEof; faultWith Fault.notModelled : M Unit) s)) = _
-    show Outcome.pure (Exec.toDone (M.bind requireEof (fun _ => faultWith Fault.notModelled) s)) = _
-    unfold M.bind requireEof
-    rw [h1]; rfl
-  · show Outcome.pure (Exec.toDone (if !s.isEofInit then _ else _)) = _
+  · intro i hi
+    simp only [List.mem_cons, List.mem_nil_iff, or_false] at hi
+    rcases hi with rfl | rfl | rfl | rfl | rfl | rfl | rfl | rfl | rfl | rfl | rfl | rfl | rfl | rfl <;> exact hg _
+  · show Outcome.pure (Exec.toDone (M.bind requireInitEof _ s)) = _
+    unfold M.bind requireInitEof
     rw [h2]; rfl
 
-/-- The part of C25 about EOF that is NOT proved. The model runs EOF containers (`IState.initEof`: code sections,
-types, data, function stack; RJUMP, RJUMPI, RJUMPV, CALLF, RETF, JUMPF, DUPN, SWAPN, EXCHANGE, DATALOAD, DATALOADN,
-DATASIZE, DATACOPY, RETURNDATALOAD in EOF mode — tied to the code by the lockstep stream), but relative jumps and section
-indices are bounded by validation only, so the theorem needs "validated ⇒ every immediate in range, every section
-ends in a terminating instruction, max_stack_size respected" (C26, whose headline is itself `_partial`) and a model
-of EOFCREATE / RETURNCONTRACT / EXT*CALL (`Fault.notModelled` today). `Validated` is the validation predicate. -/
-def FullStatementEof (Validated : EofCtx → Prop) : Prop :=
-  ∀ {η : Type} (o : Oracle η), OracleOk o → ∀ (h0 : η) (ctx : EofCtx), Validated ctx →
-  ∀ (input : List Nat) (gasLimit : Nat) (isStatic : Bool) (spec target caller callValue : Nat) (env : Env),
+/-! ### execution of a well-formed EOF container
+
+`Model/InterpWf.lean` defines the decidable predicate `wfCtxB` (as a proposition: `WfCtx`, `wfCtx_of_check`) on a container (code sections, types, data,
+sub-containers): every byte is a byte; in every code section, at every instruction boundary of the linear scan
+(`boundaries`): the immediates lie inside the section; unless the instruction is terminating (STOP, INVALID, RETURN,
+REVERT, RJUMP, RETF, JUMPF, RETURNCONTRACT, an undefined byte) the next position is again an instruction boundary of the section
+(so no section runs off its end); every RJUMP / RJUMPI / RJUMPV target is an instruction boundary of the section; the
+CALLF / JUMPF section index exists; RETF only in a returning function; JUMPF to a returning function only from a returning one;
+the first section is non-returning; the EOFCREATE sub-container exists, decodes and has its data filled; the RETURNCONTRACT
+sub-container exists and has a decodable header; there is no CODESIZE / CODECOPY (`unreachable!` in EOF code); as many
+type entries as sections, at least one. This is what `validate_eof` establishes and the interpreter relies on without
+checking. `max_stack_height` is NOT needed: the EOF stack instructions of this interpreter check the stack themselves. -/
+
+/-- the inputs of a frame that runs an EOF container -/
+structure AdmissibleEof (ctx : EofCtx) (input : List Nat) (gasLimit spec : Nat) (env : Env)
+    (mem : Memory.SharedMemory) : Prop where
+  wf : WfCtx ctx
+  inputLen : input.length ≤ Memory.ISIZE_MAX
+  gasLt : gasLimit < U64
+  envOk : EnvOk spec env
+  memFresh : FreshMem mem
+
+section
+variable (ctx : EofCtx) (input : List Nat) (gasLimit : Nat) (isStatic : Bool) (spec target caller callValue : Nat)
+variable (env : Env) (mem : Memory.SharedMemory) (isInit : Bool)
+
+/-- `Interpreter::new` on a contract whose bytecode is `Bytecode::Eof` (`isInit`: the init code of EOFCREATE / a
+creation transaction) -/
+abbrev frameEof : IState := IState.initEof ctx input gasLimit isStatic spec target caller callValue env mem isInit
+
+theorem frameEof_inv (ha : AdmissibleEof ctx input gasLimit spec env mem) :
+    InvE ctx (frameEof ctx input gasLimit isStatic spec target caller callValue env mem isInit)
+    ∧ Proofs.Interp.measure (frameEof ctx input gasLimit isStatic spec target caller callValue env mem isInit)
+        = gasLimit :=
+  initE_inv ctx input gasLimit isStatic spec target caller callValue env mem isInit
+    ha.wf ha.inputLen ha.gasLt ha.envOk ha.memFresh
+end
+
+section
+variable {η : Type} (o : Oracle η) (ho : OracleOk o) (h0 : η)
+variable (ctx : EofCtx) (input : List Nat) (gasLimit : Nat) (isStatic : Bool) (spec target caller callValue : Nat)
+variable (env : Env) (mem : Memory.SharedMemory) (isInit : Bool)
+include ho
+
+/-- **EOF: never panics, never outside a buffer** (no `Fault`, in particular none of the `panic!("Invalid EOF in
+execution")` / `.expect("EOF is checked")` / `unreachable!` sites and no instruction-pointer read outside the section) -/
+theorem no_panic_eof (ha : AdmissibleEof ctx input gasLimit spec env mem) (fuel : Nat) (f : Fault) :
+    (run o fuel (frameEof ctx input gasLimit isStatic spec target caller callValue env mem isInit) h0).1
+      ≠ .fault f := by
+  have hs := runE_safe ctx o ho fuel _ h0
+    (frameEof_inv ctx input gasLimit isStatic spec target caller callValue env mem isInit ha).1
+  intro e; rw [e] at hs; exact hs
+
+/-- **EOF: terminates** within `gas_limit + 1` instructions -/
+theorem run_terminates_eof (ha : AdmissibleEof ctx input gasLimit spec env mem) (fuel : Nat) (hf : gasLimit < fuel) :
+    (run o fuel (frameEof ctx input gasLimit isStatic spec target caller callValue env mem isInit) h0).1
+      ≠ .outOfFuel := by
+  obtain ⟨hi, hm⟩ := frameEof_inv ctx input gasLimit isStatic spec target caller callValue env mem isInit ha
+  have hs := runE_safe ctx o ho fuel _ h0 hi
+  intro e; rw [e] at hs
+  have : fuel ≤ Proofs.Interp.measure _ := hs
+  omega
+
+/-- **EOF: ends with a defined outcome within the gas limit** -/
+theorem ends_within_gas_eof (ha : AdmissibleEof ctx input gasLimit spec env mem) (fuel : Nat)
+    (hf : gasLimit < fuel) :
+    ∃ r out s', (run o fuel (frameEof ctx input gasLimit isStatic spec target caller callValue env mem isInit) h0).1
+        = .done r out s' ∧ s'.gas.remaining ≤ gasLimit := by
+  obtain ⟨hi, hm⟩ := frameEof_inv ctx input gasLimit isStatic spec target caller callValue env mem isInit ha
+  have hs := runE_safe ctx o ho fuel _ h0 hi
+  cases hr : (run o fuel (frameEof ctx input gasLimit isStatic spec target caller callValue env mem isInit) h0).1 with
+  | done r out s' =>
+    rw [hr] at hs
+    refine ⟨r, out, s', rfl, ?_⟩
+    have h1 : Proofs.Interp.measure s' ≤ Proofs.Interp.measure _ := hs
+    have h2 : Proofs.Interp.measure s' = s'.gas.remaining + mcost s' := rfl
+    omega
+  | fault f => rw [hr] at hs; exact hs.elim
+  | outOfFuel =>
+    rw [hr] at hs
+    have : fuel ≤ Proofs.Interp.measure _ := hs
+    omega
+
+/-- a state the loop passes through between two instructions of the EOF frame -/
+abbrev ReachableEof (s : IState) (h : η) : Prop :=
+  Reach o (frameEof ctx input gasLimit isStatic spec target caller callValue env mem isInit) h0 s h
+
+/-- **EOF: the instruction pointer stays inside the current code section**: in every reachable state the running
+code is code section `current_code_idx` of the container the frame started with, and `pc` is inside it -/
+theorem pc_in_section_eof (ha : AdmissibleEof ctx input gasLimit spec env mem) {s : IState} {h : η}
+    (hr : ReachableEof o h0 ctx input gasLimit isStatic spec target caller callValue env mem isInit s h) :
+    ∃ c, s.eof = some c ∧ ctx.sections[c.curIdx]? = some s.code ∧ s.pc < s.code.length := by
+  have hi := (reachE_inv ctx o ho
+    (frameEof_inv ctx input gasLimit isStatic spec target caller callValue env mem isInit ha).1 hr).1
+  obtain ⟨c, he, hc⟩ := hi.code_eq
+  exact ⟨c, he, hc, hi.pc_lt⟩
+
+/-- **EOF: the return stack stays ≤ 1024** (and the operand stack as well) -/
+theorem return_stack_bounded_eof (ha : AdmissibleEof ctx input gasLimit spec env mem) {s : IState} {h : η}
+    (hr : ReachableEof o h0 ctx input gasLimit isStatic spec target caller callValue env mem isInit s h) :
+    (∃ c, s.eof = some c ∧ c.curIdx < c.sections.length ∧ c.retStack.length ≤ 1024) ∧ s.stack.length ≤ 1024 := by
+  have hi := (reachE_inv ctx o ho
+    (frameEof_inv ctx input gasLimit isStatic spec target caller callValue env mem isInit ha).1 hr).1
+  exact ⟨hi.retStack_le, hi.stack⟩
+
+/-- **EOF: no instruction in a reachable state faults**, whatever the host answers -/
+theorem step_never_faults_eof (ha : AdmissibleEof ctx input gasLimit spec env mem) {s : IState} {h : η}
+    (hr : ReachableEof o h0 ctx input gasLimit isStatic spec target caller callValue env mem isInit s h)
+    (f : Fault) : ¬ StepFaults s f := by
+  have hi := (reachE_inv ctx o ho
+    (frameEof_inv ctx input gasLimit isStatic spec target caller callValue env mem isInit ha).1 hr).1
+  have hg := stepE_good ctx s hi
+  rintro (e | ⟨op, k, r, e, hr, ek⟩)
+  · rw [e] at hg
+    cases hg with
+    | pure hd => cases hd
+  · rw [e] at hg
+    cases hg with
+    | host hk => have := hk r hr; rw [ek] at this; cases this
+
+/-- EOF: the meter never shows more than the limit -/
+theorem gas_within_limit_eof (ha : AdmissibleEof ctx input gasLimit spec env mem) {s : IState} {h : η}
+    (hr : ReachableEof o h0 ctx input gasLimit isStatic spec target caller callValue env mem isInit s h) :
+    s.gas.remaining ≤ gasLimit := by
+  obtain ⟨hi, hm⟩ := frameEof_inv ctx input gasLimit isStatic spec target caller callValue env mem isInit ha
+  have h1 := (reachE_inv ctx o ho hi hr).2
+  have h2 : Proofs.Interp.measure s = s.gas.remaining + mcost s := rfl
+  omega
+
+end
+
+/-- non-vacuity: `CALLF 1; STOP` / `PUSH0; RJUMPI +1; RETF; RETF`-shaped two-section container is well-formed -/
+example : AdmissibleEof
+    { sections := [[0xe3, 0x00, 0x01, 0x00], [0x5f, 0xe1, 0x00, 0x01, 0xe4, 0xe4]],
+      types := [(0, 0x80, 0), (0, 0, 1)], data := [1, 2], dataSize := 2 } [0xaa] 100000 19 {} Memory.new :=
+  ⟨wfCtx_of_check _ (by decide), by unfold Memory.ISIZE_MAX; decide, by rw [U64_val]; decide, fun _ => by decide, freshMem_new⟩
+
+/-! ### the tie to validation (C26) -/
+
+/-- **What C26 gives, formally (partial).** `ctxOf e` is the interpreter's view of the decoded container. For every
+container `validate_raw_eof_inner` accepts (C26: `validateRaw_deep`, `validated_in_range_partial`): at least one code
+section, as many type entries as sections, data within `isize::MAX`, every byte a byte, every sub-container decodes,
+and at EVERY instruction boundary of C25's own scan of every code section (`boundaries`, shown to visit only
+instruction starts of C26's linear decoding) `InRange` holds: the immediates lie inside the section, CALLF / JUMPF
+name an existing section, EOFCREATE / RETURNCONTRACT name an existing sub-container, every RJUMP / RJUMPI / RJUMPV
+target is a byte of the section, the instruction is not CODESIZE / CODECOPY. The two opcode tables (C25's `decode`,
+C26's `opInfo`) are compared entry by entry (`opcode_tables_agree`). Partial: this is the in-range half of `WfCtx`;
+the whole is `validation_gives_wf` below. -/
+theorem validated_wf_partial (bs : List Nat) (t : Option EofValidate.CodeType) (e : Eof.Eof) (hbs : Eof.IsBytes bs)
+    (h : EofValidate.validateRawEofInner bs t = .ok e) :
+    0 < (ctxOf e).sections.length ∧ (ctxOf e).types.length = (ctxOf e).sections.length ∧
+    (ctxOf e).data.length ≤ Memory.ISIZE_MAX ∧
+    (∀ (k : Nat) (sec : List Nat), (ctxOf e).sections[k]? = some sec →
+      (∀ b ∈ sec, b < 256) ∧
+      ∀ i ∈ boundaries sec, i < sec.length ∧ InRange (ctxOf e).types.length (ctxOf e).containers.length sec i) ∧
+    (∀ sub ∈ (ctxOf e).containers, ∃ e', Eof.Eof.decode sub = .ok e') :=
+  validated_inRange hbs h
+
+/-- **Validation gives well-formedness** (formerly the named gap of the EOF half; now proved). Whatever
+`validate_raw_eof_inner` accepts satisfies `WfCtx`, the hypothesis of the EOF theorems above. Ingredients:
+* C26: `validateRaw_deep` (in-range facts, `validated_wf_partial`), `section_jumps_on_starts` /
+  `validate_ok_no_jump_into_immediate` (relative jumps land on instruction starts);
+* `Proofs/EofFlow.lean` (loop invariants of `validate_eof_code`): no section runs off its end — every instruction is
+  followed by an instruction of the section unless its opcode is terminating (`is_after_termination` at the end of the
+  loop, `LastInstructionNotTerminating`); a section typed non-returning contains neither RETF nor a JUMPF to a
+  returning section (`NonReturningSectionIsReturning`);
+* `Proofs/EofSubs.lean`, `Proofs/EofTop.lean` (the access tracker): the first section is non-returning; the
+  sub-container of every EOFCREATE is recorded as `ReturnContract`, is then validated as such by
+  `validate_eof_inner`, hence has its data section filled; the sub-container of a RETURNCONTRACT decodes, so its
+  header does and `data_size_raw_i() + 2` is inside it;
+* `Proofs/InterpEofC26.lean`: C25's instruction scan and C26's linear decoding visit the same offsets, the two opcode
+  tables agree (immediate sizes, terminating flags, the container-related opcodes). -/
+theorem validation_gives_wf (bs : List Nat) (t : Option EofValidate.CodeType) (e : Eof.Eof) (hbs : Eof.IsBytes bs)
+    (h : EofValidate.validateRawEofInner bs t = .ok e) : WfCtx (ctxOf e) :=
+  validated_wf hbs h
+
+/-- what is left between the theorems and the compiled code is no longer a Lean statement: that
+`Model.EofValidate` is `analysis.rs` (C26's correspondence stream) and `Model.Interp` is the interpreter (the lockstep
+stream of this property, which also evaluates `wfCtxB` on every container the real validator accepts). Kept as a
+definition so that the dependency is explicit: the statement `validation_gives_wf` proves. -/
+def ValidationGivesWf' : Prop :=
+  ∀ (bs : List Nat) (t : Option EofValidate.CodeType) (e : Eof.Eof), Eof.IsBytes bs →
+    EofValidate.validateRawEofInner bs t = .ok e → WfCtx (ctxOf e)
+
+theorem validationGivesWf' : ValidationGivesWf' := validation_gives_wf
+
+/-- C25 for EOF as claimed: for any EOF container that passes validation, execution ends with a defined outcome
+within the gas limit (and never faults). Proved: `fullStatementEof`. -/
+def FullStatementEof : Prop :=
+  ∀ {η : Type} (o : Oracle η), OracleOk o → ∀ (h0 : η) (bs : List Nat) (t : Option EofValidate.CodeType)
+    (e : Eof.Eof), Eof.IsBytes bs → EofValidate.validateRawEofInner bs t = .ok e →
+  ∀ (input : List Nat) (gasLimit : Nat) (isStatic : Bool) (spec target caller callValue : Nat) (env : Env)
+    (isInit : Bool),
     input.length ≤ Memory.ISIZE_MAX → gasLimit < U64 → EnvOk spec env →
   ∀ fuel, gasLimit < fuel →
-    ∃ r out s', (run o fuel (IState.initEof ctx input gasLimit isStatic spec target caller callValue env) h0).1
-        = .done r out s' ∧ s'.gas.remaining ≤ gasLimit
+    ∃ r out s', (run o fuel (IState.initEof (ctxOf e) input gasLimit isStatic spec target caller callValue env
+        Memory.new isInit) h0).1 = .done r out s' ∧ s'.gas.remaining ≤ gasLimit
+
+/-- the EOF half of C25 from "validation gives well-formedness" -/
+theorem fullStatementEof_of_gap (hgap : ValidationGivesWf') : FullStatementEof := by
+  intro η o ho h0 bs t e hb hv input gasLimit isStatic spec target caller callValue env isInit hil hg henv fuel hf
+  exact ends_within_gas_eof o ho h0 (ctxOf e) input gasLimit isStatic spec target caller callValue env Memory.new
+    isInit ⟨hgap bs t e hb hv, hil, hg, henv, freshMem_new⟩ fuel hf
+
+/-- **the EOF half of C25**: every container that passes validation runs to a defined outcome within the gas limit,
+for every calldata, gas limit, host and child-frame behaviour -/
+theorem fullStatementEof : FullStatementEof := fullStatementEof_of_gap validationGivesWf'
+
+/-- and it never faults, with the instruction pointer inside the current section and the return stack ≤ 1024 -/
+theorem validated_eof_safe {η : Type} (o : Oracle η) (ho : OracleOk o) (h0 : η) (bs : List Nat)
+    (t : Option EofValidate.CodeType) (e : Eof.Eof) (hbs : Eof.IsBytes bs)
+    (hv : EofValidate.validateRawEofInner bs t = .ok e)
+    (input : List Nat) (gasLimit : Nat) (isStatic : Bool) (spec target caller callValue : Nat) (env : Env)
+    (isInit : Bool) (hil : input.length ≤ Memory.ISIZE_MAX) (hg : gasLimit < U64) (henv : EnvOk spec env) :
+    (∀ fuel f, (run o fuel (IState.initEof (ctxOf e) input gasLimit isStatic spec target caller callValue env
+        Memory.new isInit) h0).1 ≠ .fault f) ∧
+    ∀ s h, Reach o (IState.initEof (ctxOf e) input gasLimit isStatic spec target caller callValue env
+        Memory.new isInit) h0 s h →
+      (∃ c, s.eof = some c ∧ (ctxOf e).sections[c.curIdx]? = some s.code ∧ s.pc < s.code.length ∧
+        c.retStack.length ≤ 1024) ∧ ∀ f, ¬ StepFaults s f := by
+  have ha : AdmissibleEof (ctxOf e) input gasLimit spec env Memory.new :=
+    ⟨validation_gives_wf bs t e hbs hv, hil, hg, henv, freshMem_new⟩
+  refine ⟨fun fuel f => no_panic_eof o ho h0 _ input gasLimit isStatic spec target caller callValue env Memory.new
+    isInit ha fuel f, fun s h hr => ?_⟩
+  obtain ⟨c, hc, hsec, hpc⟩ := pc_in_section_eof o ho h0 _ input gasLimit isStatic spec target caller callValue env
+    Memory.new isInit ha hr
+  obtain ⟨⟨c', hc', _, hrs⟩, _⟩ := return_stack_bounded_eof o ho h0 _ input gasLimit isStatic spec target caller
+    callValue env Memory.new isInit ha hr
+  rw [hc] at hc'
+  have e1 := Option.some.inj hc'
+  subst e1
+  exact ⟨⟨c, hc, hsec, hpc, hrs⟩, fun f => step_never_faults_eof o ho h0 _ input gasLimit isStatic spec target
+    caller callValue env Memory.new isInit ha hr f⟩
 
 /-- without validation the statement is false: a relative jump may leave the section (here RJUMP +16 in a
 4-byte section; the next fetch is outside the buffer) -/
